@@ -144,6 +144,7 @@ extern "C" {
     pub fn askar_migrate_indy_sdk(spec_uri: *const c_char, wallet_name: *const c_char, wallet_key: *const c_char, kdf_level: *const c_char, cb: CbUnit, cb_id: i64) -> Code;
     pub fn askar_set_custom_logger(context: *const c_void, log: LogCb, enabled: Option<EnabledCb>, flush: Option<FlushCb>, max_level: i32) -> Code;
     pub fn askar_clear_custom_logger();
+    pub fn askar_terminate();
     pub fn askar_set_default_logger() -> Code;
 }
 
